@@ -456,6 +456,14 @@ def slashRedelegations (v : ValId) (fraction : Dec) : M Unit := do
           setValidator { dstVal with info := { dstVal.info with totalDelShares := tds } }
           setDelegation { dl with shares := dl.shares - sharesToSlash }) idx
 
+/-- the amount removed from one unbonding entry when validator `v` is slashed through the index key of denom `d`:
+    ⌊f·balance⌋ for entries of that validator and denom, nothing otherwise -/
+def slashEntryCut (v : ValId) (d : Denom) (fraction : Dec) (e : Undel) : Int :=
+  if e.val == v && e.denom == d then truncateInt (mulInt fraction e.amount) else 0
+
+def slashBucket (v : ValId) (d : Denom) (fraction : Dec) (bucket : List Undel) : List Undel :=
+  bucket.map fun e => { e with amount := e.amount - slashEntryCut v d fraction e }
+
 /-- `slashUndelegations`: per index key (validator, completion, denom, delegator) the bucket is loaded and the
     entries of that validator and denom are slashed; the slashed amount goes to the fee collector. -/
 def slashUndelegations (v : ValId) (fraction : Dec) : M Unit := do
@@ -466,12 +474,10 @@ def slashUndelegations (v : ValId) (fraction : Dec) : M Unit := do
     let (_, completion, d, del) := k
     if completion < w.time then return ()
     let bucket := (AL.get w.undelQueue (completion, del)).getD []
-    let hit (e : Undel) : Bool := e.val == v && e.denom == d
-    let cut (e : Undel) : Int := if hit e then truncateInt (mulInt fraction e.amount) else 0
-    let bucket' := bucket.map fun e => { e with amount := e.amount - cut e }
     forEachM (fun (e : Undel) =>
-      if hit e then sendCoins accModule accFee (Coins.single e.denom (cut e)) else pure ()) bucket
-    modifyW fun w => { w with undelQueue := AL.set w.undelQueue (completion, del) bucket' }) idx
+      if e.val == v && e.denom == d then sendCoins accModule accFee (Coins.single e.denom (slashEntryCut v d fraction e))
+      else pure ()) bucket
+    modifyW fun w => { w with undelQueue := AL.set w.undelQueue (completion, del) (slashBucket v d fraction bucket) }) idx
 
 /-- `SlashValidator` -/
 def slashValidator (v : ValId) (fraction : Dec) : M Unit := do
